@@ -31,3 +31,15 @@ claim("C19",
       "Reference-model runtime monitor: plusz/timesz programs run on the real engine and compared with an integer model; enumerated over every groundness pattern, literal/variable spelling, value in -3..=3 and every interleaving of the constraint with the bindings of its operands, plus random aliased and chained constraints; panics are violations. Held on the executions observed.",
       "Trusted: the integer model with wake-on-two-ground propagation (pvmon::refsem::settle).",
       "runtime monitoring: reference-model oracle over enumerated posting orders and generated constraint chains")
+claim("C05",
+      "Reference-model runtime monitor over answer sequences: generated finite-tree programs (nested cond of 2-6 clauses, multi-answer conjunctions, member/append/rember, recursive closures, match with alternatives, ==, !=) wrapped in dfs { } are run through the public query iterator and compared position by position with an independent depth-first interpreter; hook H2 path counters must show that mplus_dfs was entered with Empty/Unit/Lazy/Cons and bind_dfs with Unit/Lazy/Cons streams, otherwise the run is inconclusive; violations are shrunk. Held on the executions observed.",
+      "Trusted: pvmon::refsem depth-first order; H2 counters only gate 'inconclusive'.",
+      "runtime monitoring: reference-model oracle on recorded answer sequences + path-coverage hooks")
+claim("C06",
+      "Metamorphic + reference-model runtime monitor: the same generated finite-tree program is run with the default interleaving search, wrapped in dfs { }, and on the reference interpreter, and the three answer multisets (tuples up to renaming, equal ground-instance sets) must agree; for programs made infinite with always()/loop prefixes each of the first 30 answers must be an answer under the set reading; H2 counters must show every arm of mplus and bind and the Delay chain of conde. Held on the executions observed.",
+      "Trusted: pvmon::refsem; finite instance universe; for infinite streams only a 30-answer prefix is decided.",
+      "runtime monitoring: metamorphic (BFS vs DFS) and reference-model oracles over generated programs + path-coverage hooks")
+claim("C07",
+      "Bounded-progress runtime monitor in logical time (engine steps from hook H1): every branch of a generated disjunction (conde / match / matche; infinite producers, silent divergers incl. pause-only closures, finite goals; top level, after a prefix, nested) is run alone, and every answer it yields within 6000 steps must also come out of the whole disjunction within F = 64*2^(k*d)*(s+16) steps; a budget overrun with awaited answers outstanding is the refuting event. Unbounded fairness is NOT decided; only this bounded restatement, on the executions observed.",
+      "Trusted: the fixed bound F (2-3 orders of magnitude above the unchanged engine's need); step meter hook H1.",
+      "runtime monitoring: bounded-progress oracle on hooked engine step counts (branch alone vs. in the disjunction)")
